@@ -1,8 +1,11 @@
 SPECIFICATION Spec
 CONSTANTS
   Seed = 1
-  NSample = 5000
+  NSample = 3000
   MaxLen = 2
   PairN = 10
   NRandStr = 40
+  SynFolN = 4
+  SynLongFolN = 1
+  SynLongAllVias = FALSE
 INVARIANTS ScalarsOnly CodingShape EmitCase
